@@ -338,6 +338,26 @@ class Engine(Evaluator):
             return self.call_builtin(name.split('.')[1], args, kw, st, node)
         if name == 'copy.copy':
             return self.shallow_copy(args[0], st)
+        if name == 'np.zeros' and args and isinstance(args[0], VTuple) and len(args[0].items) == 2:
+            # a block of k all-zero rows of the given width (rows are opaque: ZERO_ROW(width))
+            k, wdt = as_int(args[0].items[0]), as_int(args[0].items[1])
+            self.oblige(st, 'pre', 'np.zeros.non-negative-shape', z3.And(k >= 0, wdt >= 0), node, raises='ValueError')
+            res, n = st.heap.fresh_list('elem', 'zeros')
+            st.assume(n == k)
+            zr = z3.Function('zero_row', z3.IntSort(), Elem)
+            q = z3.Int(fresh_name('k'))
+            st.assume(z3.ForAll([q], z3.Implies(z3.And(q >= 0, q < n), st.heap.lists[res.ref].leaves[0][q] == zr(wdt))))
+            return VList(res.ref, nd=True, width=wdt)
+        if name in ('np.vstack', 'np.concatenate') and args and isinstance(args[0], VTuple) and all(isinstance(x, VList) for x in args[0].items):
+            parts = args[0].items
+            for x in parts[1:]:
+                if parts[0].width is None or x.width is None:
+                    raise Unsupported('np.vstack of row blocks of unknown width')
+                self.oblige(st, 'pre', 'np.vstack.same-number-of-columns', parts[0].width == x.width, node, raises='ValueError')
+            cur = parts[0]
+            for x in parts[1:]:
+                cur = self.list_concat(cur, x, st)
+            return VList(cur.ref, nd=True, width=parts[0].width)
         if name in ('np.vstack', 'np.concatenate') and args and isinstance(args[0], VBlocks):
             blk = st.heap.objs[args[0].ref]
             self.oblige(st, 'pre', '%s.at-least-one-array' % name, as_int(blk['count']) >= 1, node, raises='ValueError')
@@ -435,6 +455,10 @@ class Engine(Evaluator):
             if isinstance(v, VRange):
                 if const_int(v.step) == 1:
                     return VInt(zmax(v.stop - v.start, I(0)))
+            if isinstance(v, VElem):
+                f = z3.Function('elem_len', Elem, z3.IntSort())
+                st.assume(f(v.t) >= 0)
+                return VInt(f(v.t))
             h = self.len_hook(v, st)
             if h is not None:
                 return h
@@ -669,7 +693,9 @@ class Engine(Evaluator):
             if isinstance(v, VObj) and self.is_subclass(v.cls, n):
                 return z3.BoolVal(True)
         if isinstance(v, VElem):
-            raise Unsupported('isinstance on an opaque value')
+            if v.kind is None:
+                raise Unsupported('isinstance on an opaque value of undeclared kind')
+            return z3.BoolVal(any(n.split('.')[-1] == v.kind for n in names))
         return z3.BoolVal(False)
 
     def is_subclass(self, cls, name):
@@ -1045,7 +1071,10 @@ class Engine(Evaluator):
             st.heap.objs[base.ref][tgt.attr] = val
         elif isinstance(tgt, ast.Subscript):
             base = self.ev(tgt.value, st)
-            if isinstance(base, VList) and not isinstance(tgt.slice, ast.Slice):
+            if isinstance(base, VList) and isinstance(tgt.slice, ast.Tuple):
+                if not self.setitem_hook(base, tgt, val, st):
+                    raise Unsupported('multi-dimensional subscript assignment on %r' % (base,))
+            elif isinstance(base, VList) and not isinstance(tgt.slice, ast.Slice):
                 idx = self.ev(tgt.slice, st)
                 self.ensure_etype(base, val, st)
                 self.list_set(base, as_int(idx), val, st, tgt)
@@ -1057,6 +1086,16 @@ class Engine(Evaluator):
             raise Unsupported('assignment target %s' % type(tgt).__name__)
 
     def setitem_hook(self, base, tgt, val, st):
+        # rows[:, mask] = 0 on a block of opaque rows: every row gets the masked columns zeroed (row-wise op 'zero_cols')
+        if isinstance(base, VList) and base.nd and isinstance(tgt.slice, ast.Tuple) and len(tgt.slice.elts) == 2 \
+                and isinstance(tgt.slice.elts[0], ast.Slice) and all(x is None for x in (tgt.slice.elts[0].lower, tgt.slice.elts[0].upper, tgt.slice.elts[0].step)):
+            mask = self.ev(tgt.slice.elts[1], st)
+            c0 = const_int(as_int(val)) if isinstance(val, VInt) else None
+            if c0 != 0 or not isinstance(mask, VElem):
+                return False
+            new = self.map_rows(base, VStr('zero_cols'), mask, st)
+            st.heap.lists[base.ref] = st.heap.lists[new.ref]      # in place: same object, new content
+            return True
         return False
 
     def st_AugAssign(self, stmt, st):
@@ -1520,6 +1559,8 @@ class Engine(Evaluator):
                         continue
                     raise front.AttachError('%s: parameter %r has no type in the contract' % (c.key, n))
                 st.env[n] = self.fresh_value(case[n], n, st)
+                if n in c.kinds and isinstance(st.env[n], VElem):
+                    st.env[n].kind = c.kinds[n]
                 if case[n] == 'elem' and 'opt[' in c.params.get(n, ''):
                     st.assume(st.env[n].t != NONE_ELEM)      # the None case is a separate case
             if fn.args.vararg:
